@@ -328,3 +328,14 @@ Fixpoint spec (t : ty) (v : value) (l : vpr) {struct t} : sres :=
 (** the documented outcome of [deserialize] under an error type that always continues *)
 Definition okval (t : ty) (v : value) : option out := s_out (spec t v Origin).
 Definition faults (t : ty) (v : value) (l : vpr) : list fault := s_faults (spec t v l).
+
+(** the reports and the user-function invocations found in a trace *)
+Definition trace_faults (tr : list call) : list fault :=
+  flat_map (fun c => match c with
+                     | CError _ _ k l => [FKind k l]
+                     | CMergeU _ _ u l => [FUser u l]
+                     | _ => []
+                     end) tr.
+Definition trace_ucalls (tr : list call) : list (N * list uarg) :=
+  flat_map (fun c => match c with CUser f args => [(f, args)] | _ => [] end) tr.
+
